@@ -1014,7 +1014,9 @@ def decide(prop, tier, seed):
             witness_runs = run_bounded(prop, tier, seed, names=wnames)
         except Undecided as e:
             reasons.append("witness harness: " + str(e))
-    wit = [dict(v, check=b["name"]) for b in (witness_runs + bounded) for v in b.get("violations", [])]
+    def listed(check, case):   # a failing input that KNOWN_FINDINGS.txt lists is neither a new violation nor a witness for another one
+        return any(x.get("property") == prop and x.get("obligation") in (f"bounded/{check}/{case}", f"witness/{check}/{case}") for x in findings)
+    wit = [dict(v, check=b["name"]) for b in (witness_runs + bounded) for v in b.get("violations", []) if not listed(b["name"], v.get("case", "?"))]
     if wit:
         attached = False
         for oid, f, r in violations:
@@ -1062,8 +1064,9 @@ def decide(prop, tier, seed):
         rc = 2
         for x in reasons:
             print(f"UNDECIDED property={prop} reason={x}")
-    for k, f, r in known_hits:
-        print(f"KNOWN-FINDING: property={prop} {k.get('obligation')} {k.get('class', '')}")
+    for ob in sorted({k.get("obligation") for k, _, _ in known_hits}):
+        k = next(k for k, _, _ in known_hits if k.get("obligation") == ob)
+        print(f"KNOWN-FINDING: property={prop} {ob} {k.get('what') or k.get('class', '')}")
     if rc == 0:
         nob = ev["coverage"]["obligations"]
         print(f"OK property={prop} tier={tier} obligations={nob} discharged={ev['coverage']['discharged']} units={len(results)} "
